@@ -1559,12 +1559,22 @@ def pretty_float(value, ctx):
     if ctx.depth_left == 0:
         return pretty_call_alt(ctx, constructor, args=(..., ))
 
+    special = None
     if value == INF_FLOAT:
-        return pretty_call_alt(ctx, constructor, args=('inf', ))
+        special = 'inf'
     elif value == NEG_INF_FLOAT:
-        return pretty_call_alt(ctx, constructor, args=('-inf', ))
+        special = '-inf'
     elif math.isnan(value):
-        return pretty_call_alt(ctx, constructor, args=('nan', ))
+        special = 'nan'
+
+    if special is not None:
+        # The string argument is part of this float's own literal, not a
+        # nested value: it must not be cut off by the depth limit.
+        return build_fncall(
+            ctx,
+            general_identifier(constructor),
+            argdocs=(pretty_single_line_str(special, ctx.indent), )
+        )
 
     doc = annotate(Token.NUMBER_FLOAT, float.__repr__(value))
     if constructor is float:
